@@ -13,8 +13,29 @@ Correspondence (every run, against the working tree of /repo):
   sub-graph search on random hosts (+ partial matches, duplicates, foreign orbits → ValueError), and
   directly: the result is a sub-list of the input in the original order (`dedup_sublist`).
   How many matches are merged is recorded, not gated.
-The reactor clause of C11 ("pruning during rule application never changes the set of distinct
-reactions") is about `SynReactor` and is checked with the reactor properties (C03–C05), see DESIGN §6 F11.
+* attribute-selection variation and rare-but-legal label shapes (stream `keys`): more label keys than the
+  defaults, permuted key lists, the extra keys alone, one key name on nodes and on edges, a key nobody
+  carries, missing optional labels (also `charge` / `element` / `order` under permuted key lists),
+  symmetric skeletons whose symmetry ONE extra label breaks, tuple-valued labels ((a, b) next to (b, a),
+  nested `typesGH` tuples as on ITS graphs) — same comparison as above;
+* hidden state (stream `session`): sequences of queries executed in this process on shared Python
+  objects — the same graph object again, under another selection / max_iter / order of attribute access,
+  after in-place edits of labels, nodes, edges, on copies, relabelled copies (same id set permuted, or
+  fresh ids), sub-graph copies and views; the model answers each query from a snapshot of the graph as it
+  is at that moment, independently of the history;
+* the reactor clause ("pruning during rule application never changes the set of distinct reactions
+  compared with applying the rule at every match"), stream `reactor`: the real `SynReactor` is run on
+  (template, substrate) pairs drawn as C03–C05 draw them (corpus/c05_extra.txt + seeded corpus sample,
+  machinery of harness/reactor_inv_common.py), in HISTORIES of 5-12 queries that share one freshly
+  forked process: every numbering of the template (as written, a permutation of its atom-map numbers, an
+  injection into other numbers) with `automorphism=True`, repetitions, random order, `automorphism`
+  on/off, strategies all/comp/bt, template as ITS graph / string / shared SynRule object, substrate as
+  SMILES (rewritten) / shared SynGraph object, optionally interleaved with a second pair.  Gate, per
+  step: result set with pruning == set obtained by gluing EVERY raw match of that step through the
+  reactor's own internals (compared as sets of `Standardize.fit` strings, Kekule-form-only differences
+  counted as in C05).  A violating history is minimised (fresh process per attempt) to the shortest
+  prefix that still makes the last step fail.  The Lean side of this clause is C05's
+  `pruneSpec_preserves_results` / `prune_sound_of_aut` (DESIGN §6 F11).
 """
 import itertools
 import json
@@ -22,6 +43,8 @@ import json
 from ..core import build_and_audit, ROOT
 from ..shrink import shrink_seq
 from .. import graphio
+from .. import reactor_inv_common as RC
+from . import c05 as C05
 
 THEOREMS = [
     "SynKit.Aut.aut_count_exact",
@@ -40,6 +63,8 @@ THEOREMS = [
     "SynKit.Aut.dedup_id",
     "SynKit.Aut.dedup_merges_non_automorphic",
     "SynKit.Aut.C11.full_partial",
+    "SynKit.Aut.C11.pruning_clause_model",
+    "SynKit.Aut.C11.full_model",
 ]
 
 NK = ["element", "charge"]
@@ -51,14 +76,23 @@ def canon_sets(xs):
     return sorted(sorted(int(v) for v in x) for x in xs)
 
 
-def impl_exact(G, nk, ek, anchor_largest=True):
+def impl_exact(G, nk, ek, anchor_largest=True, access=("anchor", "orbits", "n_aut", "components")):
+    """`access`: the order in which the lazily computed public attributes are read (the answers must not depend on it)"""
     from synkit.Graph.Matcher.automorphism import Automorphism
 
     A = Automorphism(G, node_attr_keys=nk, edge_attr_keys=ek, anchor_largest_component=anchor_largest)
-    anc = A.anchor_component
-    return {"orbits": canon_sets(A.orbits), "n_aut": int(A.n_automorphisms),
-            "anchor": None if anc is None else sorted(int(v) for v in anc),
-            "components": canon_sets(A.components)}
+    out = {}
+    for a in list(access) + [x for x in ("anchor", "orbits", "n_aut", "components") if x not in access]:
+        if a == "anchor":
+            anc = A.anchor_component
+            out["anchor"] = None if anc is None else sorted(int(v) for v in anc)
+        elif a == "orbits":
+            out["orbits"] = canon_sets(A.orbits)
+        elif a == "n_aut":
+            out["n_aut"] = int(A.n_automorphisms)
+        else:
+            out["components"] = canon_sets(A.components)
+    return out
 
 
 def impl_wl(G, nk, ek, max_iter):
@@ -293,11 +327,11 @@ def largest_ok(anchor, comps, must_exist):
     return sorted(anchor) in [c for c in comps if len(c) == mx]
 
 
-def compare_graph(G, nk, ek, mi, mex, mwl, gate_coarse=True):
-    """-> list of (what, detail, spec_relevant) disagreements"""
+def compare_graph(G, nk, ek, mi, mex, mwl, gate_coarse=True, ie=None, iw=None):
+    """-> list of (what, detail, spec_relevant) disagreements  (ie / iw: answers of the implementation taken earlier)"""
     out = []
-    ie = impl_exact(G, nk, ek)
-    iw = impl_wl(G, nk, ek, mi)
+    ie = impl_exact(G, nk, ek) if ie is None else ie
+    iw = impl_wl(G, nk, ek, mi) if iw is None else iw
     if ie["components"] != mex["components"]:
         out.append(("components differ from the model", {"impl": ie["components"], "model": mex["components"]}, False))
     if ie["n_aut"] != mex["n_aut"]:
@@ -374,6 +408,8 @@ def run_graphs(ctx, cases, stream):
         ctx.count("components:%s" % (ncomp if ncomp < 4 else "4+"))
         ctx.count("n_aut:" + ("1" if mex["n_aut"] == 1 else "2-7" if mex["n_aut"] < 8 else "8-47" if mex["n_aut"] < 48 else "48+"))
         ctx.count("max_iter:%d" % mi)
+        ctx.count("node_keys:" + ("default" if not nk else str(len(nk)) if len(nk) <= 4 else "5+"))
+        ctx.count("edge_keys:" + ("default" if not ek else str(len(ek))))
         if "error" in iw:
             ctx.count("wl_impl_TypeError(malformed)")
         else:
@@ -390,20 +426,341 @@ def run_graphs(ctx, cases, stream):
         ctx.case([gj, nk, ek, mi], nontrivial=(n >= 2 and (mex["n_aut"] > 1 or ncomp > 1)),
                  sample={"stream": stream, "tag": tag, "graph": gj, "n_aut": mex["n_aut"], "orbits": mex["orbits"]} if 3 <= n <= 5 else None)
         if diffs:
-            small = shrink_graph(ctx, G, nk, ek, mi, complete)
-            sj = graphio.graph(small)
-            mex2, mwl2, spec = ctx.lean().ok(graph_requests(sj, nk, ek, mi) + [{"cmd": "spec.aut", "graph": sj, "node_keys": nk or [], "edge_keys": ek or []}])
-            d2, ie2, iw2 = compare_graph(small, nk, ek, mi, mex2, mwl2, complete)
-            what, detail, spec_rel = (d2 or diffs)[0]
-            prod = 1
-            for c in spec["counts"]:
-                prod *= c
-            spec_violated = spec_rel and (ie2["n_aut"] != prod or ie2["orbits"] != spec["orbits"] or "separates" in what or "anchor" in what)
-            ctx.violation(what, {"graph": sj, "node_keys": nk, "edge_keys": ek, "max_iter": mi, "kind": "graph"},
-                          {"detail": detail, "impl_exact": ie2, "impl_wl": iw2, "spec": spec, "stream": stream, "tag": tag},
-                          no_input=not spec_violated)
+            report_graph_failure(ctx, G, nk, ek, mi, complete, diffs, stream, tag)
             if len(ctx.violations) >= 5:
                 return
+
+
+def spec_verdict(spec, what, spec_rel, ie):
+    prod = 1
+    for c in spec["counts"]:
+        prod *= c
+    return bool(spec_rel and (ie["n_aut"] != prod or ie["orbits"] != spec["orbits"] or "separates" in what or "anchor" in what))
+
+
+def report_graph_failure(ctx, G, nk, ek, mi, complete, diffs, stream, tag):
+    small = shrink_graph(ctx, G, nk, ek, mi, complete)
+    sj = graphio.graph(small)
+    mex2, mwl2, spec = ctx.lean().ok(graph_requests(sj, nk, ek, mi) + [{"cmd": "spec.aut", "graph": sj, "node_keys": nk or [], "edge_keys": ek or []}])
+    d2, ie2, iw2 = compare_graph(small, nk, ek, mi, mex2, mwl2, complete)
+    what, detail, spec_rel = (d2 or diffs)[0]
+    ctx.violation(what, {"graph": sj, "node_keys": nk, "edge_keys": ek, "max_iter": mi, "kind": "graph"},
+                  {"detail": detail, "impl_exact": ie2, "impl_wl": iw2, "spec": spec, "stream": stream, "tag": tag},
+                  no_input=not spec_verdict(spec, what, spec_rel, ie2))
+
+
+# ---------------------------------------------------------------- attribute-selection and rare-input streams
+# value pools of the extra label keys: ONE type per key (see ctx.assumptions); no booleans on edges (the exact matcher's
+# default for a missing edge label is 1.0, and Python has 1.0 == True)
+XNODE = {
+    "hcount": [0, 1, 2, 3],
+    "aromatic": [False, True],
+    "isotope": [0, 13, 2],
+    "neighbors": [("C",), ("C", "H"), ("H", "H", "O"), ()],
+    "tag": ["a", "b", "*"],                  # also an edge key: one key name on nodes AND edges; "*" is what the exact matcher reads for a missing label
+}
+XEDGE = {
+    "standard_order": [0, 1.0, -1.0, 0.5],
+    "ez": ["", "E", "Z"],
+    "tag": ["a", "b", "c"],
+    "pair": [(1.0, 2.0), (2.0, 1.0), (1.0, 1.0)],   # tuple-valued, (a, b) next to (b, a)
+}
+POOLS_N = dict(XNODE, element=ELEMS, charge=[0, 1, -1])
+POOLS_E = dict(XEDGE, order=[1.0, 2.0, 1.5])
+
+
+def base_graph(rnd):
+    r = rnd.random()
+    if r < 0.55:
+        tag, G = family(rnd)
+        return "family-" + tag, G
+    if r < 0.8:
+        return "mol-uniform", mol_like(rnd, rnd.randint(3, 8), uniform=True)
+    tag, G = random_graph(rnd)
+    return tag, G
+
+
+def decorate(rnd, G, missing=False):
+    """Extra label keys on every node / edge of G (in place).  Styles: uniform; ONE node or edge differs in ONE key (a symmetric
+    skeleton whose symmetry only that attribute breaks); scattered values.  -> (style, extra node keys, extra edge keys)"""
+    xn = rnd.sample(sorted(XNODE), rnd.randint(1, 3))
+    xe = rnd.sample(sorted(XEDGE), rnd.randint(0, 2))
+    style = rnd.choice(["uniform", "one", "one", "one", "scatter"])
+    base = {("n", k): rnd.choice(XNODE[k]) for k in xn}
+    base.update({("e", k): rnd.choice(XEDGE[k]) for k in xe})
+    for v in G.nodes:
+        for k in xn:
+            G.nodes[v][k] = base[("n", k)] if style != "scatter" or rnd.random() < 0.7 else rnd.choice(XNODE[k])
+    for u, v in G.edges:
+        for k in xe:
+            G[u][v][k] = base[("e", k)] if style != "scatter" or rnd.random() < 0.7 else rnd.choice(XEDGE[k])
+    if style == "one":
+        slots = [("n", k) for k in xn] + ([("e", k) for k in xe] if G.number_of_edges() else [])
+        if slots and G.number_of_nodes():
+            kind, k = rnd.choice(slots)
+            pool = [x for x in (XNODE if kind == "n" else XEDGE)[k] if x != base[(kind, k)]]
+            if kind == "n":
+                G.nodes[rnd.choice(sorted(G.nodes))][k] = rnd.choice(pool)
+            else:
+                u, v = rnd.choice(sorted(G.edges))
+                G[u][v][k] = rnd.choice(pool)
+    if missing:
+        for v in G.nodes:
+            for k in xn + ["charge"]:
+                if rnd.random() < 0.25:
+                    G.nodes[v].pop(k, None)
+            if rnd.random() < 0.1:
+                G.nodes[v].pop("element", None)
+        for u, v in G.edges:
+            for k in xe + ["order"]:
+                if rnd.random() < 0.2:
+                    G[u][v].pop(k, None)
+    return style, xn, xe
+
+
+def select_keys(rnd, xn, xe):
+    """A non-default attribute selection: more keys than the defaults, permuted key lists, the extra keys alone, a key that is
+    on nodes and on edges, a key nobody carries."""
+    r = rnd.random()
+    if r < 0.35:
+        nk = NK + xn                                  # defaults first, then the extra keys
+    elif r < 0.6:
+        nk = NK + xn
+        rnd.shuffle(nk)
+    elif r < 0.75:
+        nk = list(xn)
+    elif r < 0.9:
+        nk = rnd.sample(NK + xn, rnd.randint(1, len(NK + xn)))
+    else:
+        nk = NK + xn + ["missing_key"]
+    r = rnd.random()
+    if r < 0.4:
+        ek = EK + xe
+    elif r < 0.65:
+        ek = EK + xe
+        rnd.shuffle(ek)
+    elif r < 0.8 and xe:
+        ek = list(xe)
+    elif r < 0.9:
+        ek = EK
+    else:
+        ek = rnd.sample(EK + xe, rnd.randint(1, len(EK + xe)))
+    return list(nk), list(ek)
+
+
+def its_like(rnd):
+    """A graph labelled like an ITS / reaction-centre graph: tuple-valued bond orders (before, after) with (a, b) next to
+    (b, a), `standard_order` = a - b, nested-tuple node labels `typesGH`."""
+    _, G = base_graph(rnd)
+    for v in G.nodes:
+        d = G.nodes[v]
+        t = (d.get("element", "C"), False, 1, d.get("charge", 0), ("C",))
+        G.nodes[v]["typesGH"] = (t, t)
+    for u, v in G.edges:
+        o = G[u][v].get("order", 1.0)
+        G[u][v]["order"] = (o, o)
+        G[u][v]["standard_order"] = 0.0
+    es = sorted(G.edges)
+    k = rnd.choice([0, 1, 2, 2, 3])
+    for j, (u, v) in enumerate(rnd.sample(es, min(k, len(es)))):
+        pair = [(1.0, 2.0), (2.0, 1.0), (1.0, 2.0), (0, 1.0)][j] if rnd.random() < 0.8 else rnd.choice([(1.0, 2.0), (2.0, 1.0), (0, 1.0), (1.0, 0)])
+        G[u][v]["order"] = pair
+        G[u][v]["standard_order"] = float(pair[0] - pair[1])
+    if rnd.random() < 0.3 and G.number_of_nodes():
+        v = rnd.choice(sorted(G.nodes))
+        t = G.nodes[v]["typesGH"][0]
+        G.nodes[v]["typesGH"] = (t, (t[0], t[1], t[2] - 1, t[3] + 1, t[4]))
+    nk = rnd.choice([["typesGH"], NK + ["typesGH"], ["typesGH", "element"], None, NK])
+    ek = rnd.choice([["order"], ["order", "standard_order"], ["standard_order"], ["standard_order", "order"], None])
+    return "its-like", G, nk, ek
+
+
+def keys_case(rnd, missing=False):
+    _, G = base_graph(rnd)
+    style, xn, xe = decorate(rnd, G, missing=missing)
+    nk, ek = select_keys(rnd, xn, xe)
+    return f"{'missing-' if missing else ''}keys-{style}", G, nk, ek
+
+
+# ---------------------------------------------------------------- sessions: hidden state between queries
+# One session = one base graph and a sequence of operations executed in this process on shared Python objects: queries with
+# varying attribute selections / max_iter / order of attribute access, on the same object again, on copies, relabelled copies,
+# (views of) sub-graphs, and after in-place edits of labels, nodes and edges.  The model answers every query from a snapshot of
+# the queried graph taken at that moment, independently of the history.
+ACCESS = ["anchor", "orbits", "n_aut", "components"]
+
+
+def apply_op(slots, frozen, op):
+    k = op["op"]
+    if k == "copy":
+        slots.append(slots[op["src"]].copy())
+        frozen.append(False)
+    elif k == "relabel":
+        slots.append(RC._relabelled_copy(slots[op["src"]], {int(a): int(b) for a, b in op["table"]}, op["oseed"]))
+        frozen.append(False)
+    elif k == "sub":
+        H = slots[op["src"]].subgraph(op["nodes"])
+        slots.append(H if op["view"] else H.copy())
+        frozen.append(bool(op["view"]))
+    elif k == "setn":
+        slots[op["slot"]].nodes[op["node"]][op["key"]] = graphio.unval(op["val"])
+    elif k == "sete":
+        slots[op["slot"]][op["u"]][op["v"]][op["key"]] = graphio.unval(op["val"])
+    elif k == "rmnode":
+        slots[op["slot"]].remove_node(op["node"])
+    elif k == "addedge":
+        slots[op["slot"]].add_edge(op["u"], op["v"], **{a: graphio.unval(b) for a, b in op["attrs"].items()})
+
+
+def gen_session(rnd):
+    r = rnd.random()
+    if r < 0.45:
+        tag, G = base_graph(rnd)
+        xn, xe = [], []
+    elif r < 0.85:
+        tag, G = base_graph(rnd)
+        _, xn, xe = decorate(rnd, G)
+        tag = "keys-" + tag
+    else:
+        tag, G, _, _ = its_like(rnd)
+        xn, xe = ["typesGH"], ["standard_order"]
+    G = scramble(rnd, G)
+    its = tag == "its-like"
+    gj0 = graphio.graph(G)
+    slots, frozen, ops = [graphio.to_nx(gj0)], [False], []
+
+    def selection():
+        r = rnd.random()
+        if its:
+            return rnd.choice([["typesGH"], NK + ["typesGH"], NK]), rnd.choice([["order"], ["order", "standard_order"], ["standard_order"]])
+        if r < 0.4 or not (xn or xe):
+            return rnd.choice([(NK, EK), (NK, EK), (None, None), (["element"], EK)])
+        return select_keys(rnd, xn, xe)
+
+    def query(slot):
+        nk, ek = selection()
+        acc = ACCESS[:]
+        rnd.shuffle(acc)
+        return {"op": "query", "slot": slot, "node_keys": nk, "edge_keys": ek, "max_iter": rnd.choice([0, 1, 2, 10, 10]), "access": acc}
+
+    ops.append(query(0))
+    for _ in range(rnd.randint(5, 10)):
+        r = rnd.random()
+        live = [i for i, g in enumerate(slots) if g.number_of_nodes() >= 1]
+        slot = rnd.choice(live)
+        G1 = slots[slot]
+        editable = [i for i in live if not frozen[i]]
+        op = None
+        if r < 0.45:
+            op = query(slot)
+        elif r < 0.53:
+            op = {"op": "copy", "src": slot}
+        elif r < 0.63:
+            nodes = sorted(G1.nodes)
+            # mostly a permutation of the same ids (derived object with the SAME id set, other roles), else fresh ids
+            ids = nodes[:] if rnd.random() < 0.6 else rnd.sample(range(0, 3 * len(nodes) + 5), len(nodes))
+            rnd.shuffle(ids)
+            op = {"op": "relabel", "src": slot, "table": [[a, b] for a, b in zip(nodes, ids)], "oseed": rnd.randrange(1, 2**30)}
+        elif r < 0.71 and G1.number_of_nodes() >= 2:
+            nodes = sorted(G1.nodes)
+            op = {"op": "sub", "src": slot, "nodes": sorted(rnd.sample(nodes, rnd.randint(1, len(nodes) - 1))), "view": rnd.random() < 0.4}
+        elif r < 0.83 and editable:
+            slot = rnd.choice(editable)
+            G1 = slots[slot]
+            v = rnd.choice(sorted(G1.nodes))
+            keys = [k for k in G1.nodes[v] if k in POOLS_N] or ["element"]
+            k = rnd.choice(keys)
+            pool = [x for x in POOLS_N[k] if x != G1.nodes[v].get(k)]
+            op = {"op": "setn", "slot": slot, "node": v, "key": k, "val": graphio.val(rnd.choice(pool))}
+        elif r < 0.92 and editable and any(slots[i].number_of_edges() for i in editable):
+            slot = rnd.choice([i for i in editable if slots[i].number_of_edges()])
+            G1 = slots[slot]
+            u, v = rnd.choice(sorted(G1.edges))
+            keys = [k for k in G1[u][v] if k in POOLS_E and not (its and k == "order")] or ["order"]
+            k = rnd.choice(keys)
+            pool = [x for x in (XEDGE["pair"] if (its and k == "order") else POOLS_E[k]) if x != G1[u][v].get(k)]
+            op = {"op": "sete", "slot": slot, "u": u, "v": v, "key": k, "val": graphio.val(rnd.choice(pool))}
+        elif r < 0.96 and editable:
+            slot = rnd.choice(editable)
+            G1 = slots[slot]
+            if G1.number_of_nodes() >= 2:
+                op = {"op": "rmnode", "slot": slot, "node": rnd.choice(sorted(G1.nodes))}
+        elif editable:
+            slot = rnd.choice(editable)
+            G1 = slots[slot]
+            non = [(a, b) for a in sorted(G1.nodes) for b in sorted(G1.nodes) if a < b and not G1.has_edge(a, b)]
+            if non and G1.number_of_edges():
+                a, b = rnd.choice(non)
+                e = rnd.choice(sorted(G1.edges))
+                op = {"op": "addedge", "slot": slot, "u": a, "v": b, "attrs": graphio.attrs(G1[e[0]][e[1]])}
+        if op is None:
+            op = query(slot)
+        ops.append(op)
+        if op["op"] != "query":
+            apply_op(slots, frozen, op)
+            if op["op"] in ("setn", "sete", "rmnode", "addedge") or rnd.random() < 0.7:
+                # the edited / derived object is asked about right away
+                ops.append(query(op.get("slot", len(slots) - 1) if op["op"] in ("setn", "sete", "rmnode", "addedge") else len(slots) - 1))
+    return {"kind": "session", "tag": tag, "graph": gj0, "ops": ops}
+
+
+def exec_session(sess):
+    """-> list of records (op index, snapshot, nk, ek, mi, impl exact, impl wl)"""
+    slots, frozen, recs = [graphio.to_nx(sess["graph"])], [False], []
+    for k, op in enumerate(sess["ops"]):
+        if op["op"] != "query":
+            apply_op(slots, frozen, op)
+            continue
+        G = slots[op["slot"]]
+        gj = graphio.graph(G)
+        nk, ek, mi = op["node_keys"], op["edge_keys"], op["max_iter"]
+        ie = impl_exact(G, nk, ek, access=op.get("access", ACCESS))
+        iw = impl_wl(G, nk, ek, mi)
+        recs.append((k, gj, nk, ek, mi, ie, iw))
+    return recs
+
+
+def run_sessions(ctx, sessions, stream):
+    allrecs = [exec_session(s) for s in sessions]           # the implementation first, session after session, in this process
+    reqs = []
+    for recs in allrecs:
+        for k, gj, nk, ek, mi, ie, iw in recs:
+            reqs += graph_requests(gj, nk, ek, mi)
+    reps = ctx.lean().ok(reqs, shards=8)
+    j = 0
+    for sess, recs in zip(sessions, allrecs):
+        ctx.count(f"{stream}:sessions")
+        ctx.count(f"{stream}:base:" + sess.get("tag", "?").split("-")[0])
+        for op in sess["ops"]:
+            ctx.count(f"{stream}:op:" + op["op"])
+        failed = False
+        for k, gj, nk, ek, mi, ie, iw in recs:
+            mex, mwl = reps[j], reps[j + 1]
+            j += 2
+            if failed:
+                continue
+            G = graphio.to_nx(gj)
+            complete = attr_complete(G, nk or NK, ek or EK)
+            diffs, _, _ = compare_graph(G, nk, ek, mi, mex, mwl, gate_coarse=complete, ie=ie, iw=iw)
+            n = G.number_of_nodes()
+            ctx.count("nodes:%d" % n if n < 10 else "nodes:10+")
+            ctx.case([gj, nk, ek, mi], nontrivial=(n >= 2 and (mex["n_aut"] > 1 or len(mex["components"]) > 1)))
+            if not diffs:
+                continue
+            failed = True
+            # does the query fail on a freshly built graph as well?  then it is a plain input, reported (and minimised) as such
+            fresh, _, _ = compare_graph(G, nk, ek, mi, mex, mwl, gate_coarse=complete)
+            if fresh:
+                report_graph_failure(ctx, G, nk, ek, mi, complete, fresh, stream, sess.get("tag", "session"))
+            else:
+                spec = ctx.lean().ok([{"cmd": "spec.aut", "graph": gj, "node_keys": nk or [], "edge_keys": ek or []}])[0]
+                what, detail, spec_rel = diffs[0]
+                ctx.violation(what + " (only after the preceding operations of the session)",
+                              {"kind": "session", "tag": sess.get("tag"), "graph": sess["graph"], "ops": sess["ops"][:k + 1]},
+                              {"detail": detail, "impl_exact": ie, "impl_wl": iw, "spec": spec, "queried_graph": gj, "stream": stream},
+                              no_input=not spec_verdict(spec, what, spec_rel, ie))
+        if len(ctx.violations) >= 5:
+            return
 
 
 # ---------------------------------------------------------------- dedup stream
@@ -586,15 +943,391 @@ def run_dedup(ctx, cases, stream):
                 return
 
 
+# ---------------------------------------------------------------- reactor histories (last clause of C11)
+# "the symmetry pruning used during rule application never changes the set of distinct reactions obtained compared with
+# applying the rule at every match" — checked on the real SynReactor, per query, INSIDE A HISTORY of queries that share one
+# process: the same template under several atom-map numberings (a permutation of its numbers; an injection into other
+# numbers, as for templates from different sources), repeated, in random order, with `automorphism` on and off, strategies
+# all/comp/bt, the template handed over as ITS graph / reaction string / a SynRule object shared between the steps, the
+# substrate rewritten; optionally interleaved with the queries of a second (template, substrate) pair.  Every history runs
+# in a freshly forked process (so a history is exactly reproducible), and the reference of a step — the set obtained by
+# gluing EVERY raw match of that very query through the reactor's own internals — does not go through the pruning at all.
+def _renumber_injective(rsmi, seed):
+    """The same mapped reaction with its atom-map numbers sent injectively into OTHER numbers (1 .. 3n+5)."""
+    import random as _random
+    from rdkit import Chem
+
+    RC._quiet()
+    rnd = _random.Random(seed)
+    rs, ps = rsmi.split(">>")
+    mr, mp = RC._mol_keep_h(rs), RC._mol_keep_h(ps)
+    maps = sorted({a.GetAtomMapNum() for m in (mr, mp) for a in m.GetAtoms() if a.GetAtomMapNum()})
+    table = dict(zip(maps, rnd.sample(range(1, 3 * len(maps) + 6), len(maps))))
+    for m in (mr, mp):
+        for a in m.GetAtoms():
+            if a.GetAtomMapNum():
+                a.SetAtomMapNum(table[a.GetAtomMapNum()])
+    out = Chem.MolToSmiles(mr) + ">>" + Chem.MolToSmiles(mp)
+    if [RC.canon_unmapped(x) for x in out.split(">>")] != [RC.canon_unmapped(x) for x in rsmi.split(">>")]:
+        raise RC.RewriteFailed("renumbering changed the molecules: " + rsmi)
+    return out
+
+
+def _history_step(sr, std, step, rules):
+    """One SynReactor query.  -> {status, results, results_raw, n_raw, n_map}"""
+    from synkit.IO.chem_converter import rsmi_to_its
+
+    out = {"status": "ok", "results": None, "results_raw": None, "n_raw": None, "n_map": None}
+    kw = RC._mode_kwargs(step["mode"])
+    tform = step["tform"]
+    if tform == "string" and step["core"]:
+        tform = "graph"
+    if tform == "string":
+        tpl = step["template"]
+    else:
+        tpl = rsmi_to_its(step["template"], core=step["core"])
+        if tform == "rule":
+            # one SynRule object per (template text, centre/full, mode), shared by the steps of the history
+            key = (step["template"], step["core"], step["mode"])
+            if key not in rules:
+                # built exactly as SynReactor._wrap_template builds it from a graph
+                rules[key] = sr.SynRule(tpl, canonicaliser=sr.GraphCanonicaliser(), **({"implicit_h": False} if kw.get("implicit_temp") else {}))
+            tpl = rules[key]
+    calls = []
+    orig = sr.SubgraphSearchEngine
+
+    class Recorder(orig):  # what the search returned, before any pruning
+        @staticmethod
+        def find_subgraph_mappings(*a, **k):
+            r = orig.find_subgraph_mappings(*a, **k)
+            calls.append(r)
+            return r
+
+    sub = step["substrate"]
+    if step.get("sform") == "syngraph":
+        # one SynGraph object per substrate text, built exactly as SynReactor._wrap_input builds it, shared by the steps
+        key = ("substrate", sub)
+        if key not in rules:
+            from synkit.IO.chem_converter import smiles_to_graph
+            rules[key] = sr.SynGraph(smiles_to_graph(sub, use_index_as_atom_map=False, drop_non_aam=False), sr.GraphCanonicaliser())
+        sub = rules[key]
+    reactor = sr.SynReactor(sub, tpl, invert=step["invert"], strategy=step["strategy"],
+                            automorphism=step["automorphism"], **kw)
+    sr.SubgraphSearchEngine = Recorder
+    pruned_error = None
+    try:
+        try:
+            maps = reactor.mappings
+            out["n_map"] = len(maps)
+        except RC.CaseTimeout:
+            raise
+        except Exception as e:  # noqa: BLE001
+            if not calls:
+                raise            # the search itself (or the preparation of the inputs) failed: no pruning involved
+            pruned_error = type(e).__name__
+    finally:
+        sr.SubgraphSearchEngine = orig
+    raw = [dict(m) for m in calls[0]] if calls else None
+    out["n_raw"] = None if raw is None else len(raw)
+
+    def fitted(smarts):
+        res = set()
+        for x in smarts:
+            try:
+                f = std.fit(x)
+            except RC.CaseTimeout:
+                raise
+            except Exception:  # noqa: BLE001
+                f = None
+            if f is not None:
+                res.add(f)
+        return sorted(res)
+
+    if pruned_error is None:
+        out["results"] = fitted(list(reactor.smarts_list))
+    else:
+        out["status"] = "pruning-raised:" + pruned_error
+    if raw is not None:
+        reactor._mappings = raw          # glue EVERY raw match through the reactor's own internals (no pruning)
+        reactor._its = None
+        reactor._smarts = None
+        out["results_raw"] = fitted(list(reactor.smarts_list))
+    return out
+
+
+def history_task(task):
+    """Worker entry (fresh process per task).  task: {key, steps: [step...], timeout}"""
+    import signal
+    import time
+
+    t0 = time.time()
+    RC._ALARM["fired"] = False
+    outs = []
+    try:
+        signal.setitimer(signal.ITIMER_REAL, float(task.get("timeout", 30)))
+        import synkit.Synthesis.Reactor.syn_reactor as sr
+        from synkit.Chem.Reaction.standardize import Standardize
+
+        std = Standardize()
+        rules = {}
+        for step in task["steps"]:
+            try:
+                outs.append(_history_step(sr, std, step, rules))
+            except RC.CaseTimeout:
+                raise
+            except Exception as e:  # noqa: BLE001 - an exception of the implementation is an outcome of that step
+                outs.append({"status": "error:" + type(e).__name__, "error": str(e)[:200]})
+    except RC.CaseTimeout:
+        pass
+    finally:
+        signal.setitimer(signal.ITIMER_REAL, 0)
+    while len(outs) < len(task["steps"]):
+        outs.append({"status": "timeout"})
+    return {"key": task["key"], "steps": outs, "wall": round(time.time() - t0, 3)}
+
+
+def _history_child(conn, task):
+    try:
+        RC._worker_init()
+        conn.send(history_task(task))
+    finally:
+        conn.close()
+
+
+class HistoryPool:
+    """One freshly forked child per history (forked from the main thread, at most `workers` alive): a history never sees the
+    state another history left behind.  A child that does not answer within its time-out plus a margin (or dies) is killed and
+    its history counted as timed out; nothing can block the harness."""
+
+    def __init__(self, workers=None):
+        import multiprocessing as mp
+        import os
+
+        import synkit.Synthesis.Reactor.syn_reactor  # noqa: F401 - imported once here so that the children need not
+        import synkit.Chem.Reaction.standardize  # noqa: F401
+        import synkit.IO.chem_converter  # noqa: F401
+        self.mp = mp.get_context("fork")
+        self.n = workers or min(12, os.cpu_count() or 4)
+        self.live = {}
+
+    def run(self, tasks):
+        import time
+        from multiprocessing.connection import wait
+
+        res, todo = {}, list(tasks)[::-1]
+
+        def lost(task):
+            return {"key": task["key"], "steps": [{"status": "timeout"} for _ in task["steps"]], "wall": None}
+
+        while todo or self.live:
+            while todo and len(self.live) < self.n:
+                task = todo.pop()
+                rd, wr = self.mp.Pipe(duplex=False)
+                proc = self.mp.Process(target=_history_child, args=(wr, task), daemon=True)
+                proc.start()
+                wr.close()
+                self.live[rd] = (proc, task, time.time() + float(task.get("timeout", 30)) + 15.0)
+            for rd in wait(list(self.live), timeout=1.0):
+                proc, task, _ = self.live.pop(rd)
+                try:
+                    res[task["key"]] = rd.recv()
+                except (EOFError, OSError):
+                    res[task["key"]] = lost(task)      # the child died without an answer
+                rd.close()
+                proc.join(5)
+                if proc.is_alive():
+                    proc.kill()
+            now = time.time()
+            for rd in [r for r, (_, _, dl) in self.live.items() if now > dl]:
+                proc, task, _ = self.live.pop(rd)
+                proc.kill()
+                proc.join(5)
+                rd.close()
+                res[task["key"]] = lost(task)
+        return [res[t["key"]] for t in tasks]
+
+    def close(self):
+        for rd, (proc, _, _) in list(self.live.items()):
+            proc.kill()
+            proc.join(5)
+            rd.close()
+        self.live.clear()
+
+
+def step_verdict(r):
+    """-> None | (what, detail): the C11 gate on one step, from that step's own two result sets"""
+    if r["status"].startswith("pruning-raised") and r.get("results_raw"):
+        return ("rule application raises inside the symmetry pruning although applying the rule at every raw match gives reactions",
+                {"error": r["status"], "every_raw_match": len(r["results_raw"]), "raw_matches": r["n_raw"]})
+    if r["status"] != "ok" or r.get("results") is None or r.get("results_raw") is None:
+        return None
+    cmp = C05._Cmp()
+    if cmp.equal(r["results_raw"], r["results"]):
+        return None
+    return ("symmetry pruning changes the set of distinct reactions compared with applying the rule at every raw match",
+            {"reference": r.get("reference", "every raw match of this very step, glued by the reactor's own internals"),
+             "raw_matches": r["n_raw"], "kept_matches": r["n_map"], "with_pruning": len(r["results"]), "every_raw_match": len(r["results_raw"]),
+             "lost": sorted(set(r["results_raw"]) - set(r["results"]))[:6], "gained": sorted(set(r["results"]) - set(r["results_raw"]))[:6]})
+
+
+def reactor_bases(ctx, n_rxn, max_atoms):
+    """(template, substrate) pairs as C03-C05 draw them: the hand-written symmetric pairs of corpus/c05_extra.txt and a seeded
+    sample of corpus reactions x {centre, full ITS} x {forward, backward} x {own side, a foreign corpus side}."""
+    bases = [dict(b, name=b["name"]) for b in C05.extra_cases(ctx, 0)]
+    corpus = RC.load_corpus()
+    small = []
+    for rid, rs in corpus:
+        if rs.count(":") <= max_atoms:      # cheap pre-selection before the RDKit analysis
+            small.append((rid, rs))
+    infos = {rid: RC.analyze_reaction(rs) for rid, rs in small}
+    bases += C05.build_cases(ctx, small, infos, n_rxn, 0, max_atoms)
+    return [{k: b[k] for k in ("name", "template", "core", "invert", "mode", "substrate")} for b in bases]
+
+
+def make_history(rnd, bases_of_history):
+    """A random history over one or two (template, substrate) pairs.  Every numbering of a template occurs at least once with
+    automorphism=True, at least one query is repeated verbatim, the order is random."""
+    steps = []
+    share = rnd.random() < 0.35      # every step hands over shared SynRule / SynGraph objects (state kept on those objects)
+    for b in bases_of_history:
+        tvars = [b["template"]]
+        for fn in (RC.renumber_reaction, _renumber_injective):
+            try:
+                tvars.append(fn(b["template"], rnd.randrange(1, 2**30)))
+            except Exception:  # noqa: BLE001 - the harness's own self-check of the rewriting failed: variant not used
+                pass
+        if rnd.random() < 0.4:
+            try:
+                tvars.append(_renumber_injective(b["template"], rnd.randrange(1, 2**30)))
+            except Exception:  # noqa: BLE001
+                pass
+        svars = [b["substrate"], RC.rewrite_smiles(b["substrate"], rnd.randrange(1, 2**30))]
+
+        def step(t, auto):
+            return {"template": t, "core": b["core"], "invert": b["invert"], "mode": b["mode"],
+                    "substrate": svars[0] if rnd.random() < 0.6 else svars[1],
+                    "strategy": rnd.choice(["all", "all", "all", "comp", "bt"]),
+                    "tform": "rule" if share else rnd.choice(["graph", "graph", "rule", "string"]),
+                    "sform": "syngraph" if (share or rnd.random() < 0.2) else "smiles",
+                    "automorphism": auto}
+        mine = [step(t, True) for t in tvars]
+        for _ in range(rnd.randint(1, 3)):
+            mine.append(step(rnd.choice(tvars), rnd.random() < 0.6))
+        mine.append(dict(rnd.choice(mine)))          # a verbatim repetition
+        steps += mine
+    rnd.shuffle(steps)
+    return steps
+
+
+def eval_histories(pool, histories, timeout, tag="h"):
+    """Run every history in its own fresh process.  A step in which the implementation answered WITHOUT calling the search (so
+    that there are no raw matches of that step to glue) gets its reference from the same query asked alone in a fresh process:
+    the reference of a query never depends on the history."""
+    results = pool.run([{"key": f"{tag}{i}", "steps": h, "timeout": timeout} for i, h in enumerate(histories)])
+    need = [(i, k) for i, res in enumerate(results) for k, r in enumerate(res["steps"])
+            if r["status"] == "ok" and r.get("results") is not None and r.get("results_raw") is None]
+    if need:
+        fresh = pool.run([{"key": f"{tag}f{j}", "steps": [histories[i][k]], "timeout": timeout} for j, (i, k) in enumerate(need)])
+        for (i, k), f in zip(need, fresh):
+            r, f0 = results[i]["steps"][k], f["steps"][0]
+            r["results_raw"], r["n_raw"], r["reference"] = f0.get("results_raw"), f0.get("n_raw"), "same query alone in a fresh process"
+    return results
+
+
+def run_histories(ctx, pool, histories, timeout, stream, shrink=True):
+    """histories: list of step lists"""
+    results = eval_histories(pool, histories, timeout, stream)
+    bad = 0
+    for h, res in zip(histories, results):
+        ctx.count(f"{stream}:histories")
+        seen_q = {}
+        for i, (st, r) in enumerate(zip(h, res["steps"])):
+            ctx.count("reactor_step_status:" + r["status"].split(":")[0])
+            if r["status"].startswith("error"):
+                ctx.count("reactor_impl_exception:" + r["status"][6:])
+            if r["status"] == "timeout" or r["status"].startswith("error"):
+                continue
+            n_raw = r["n_raw"] or 0
+            ctx.count("reactor_raw_matches:" + ("0" if n_raw == 0 else "1" if n_raw == 1 else "2-9" if n_raw <= 9 else "10+"))
+            if r.get("reference"):
+                ctx.count("reactor_steps_answered_without_a_search_call(reference: the same query alone in a fresh process)")
+            if r.get("n_map") is not None and r["n_map"] < n_raw:
+                ctx.count("reactor_steps_where_pruning_removed_matches")
+            if r.get("results_raw") is not None:
+                n = len(r["results_raw"])
+                ctx.count("reactor_distinct_reactions:" + ("0" if n == 0 else "1" if n == 1 else "2-4" if n <= 4 else "5+"))
+            ctx.count("reactor_automorphism:" + ("on" if st["automorphism"] else "off"))
+            ctx.count("reactor_strategy:" + st["strategy"])
+            ctx.count("reactor_template_form:" + ("graph" if (st["tform"] == "string" and st["core"]) else st["tform"]))
+            ctx.count("reactor_substrate_form:" + st.get("sform", "smiles"))
+            q = json.dumps(st, sort_keys=True)
+            if q in seen_q:
+                ctx.count("reactor_steps_repeating_an_earlier_query")
+                if r.get("results_raw") is not None and seen_q[q] is not None and r["results_raw"] != seen_q[q]:
+                    ctx.count("recorded:every_raw_match_set_differs_from_the_first_time_this_query_was_asked(not gated here; C05)")
+            else:
+                seen_q[q] = r.get("results_raw")
+            if i and any(p["template"] != st["template"] and C05.rc_key_of(p["template"]) == C05.rc_key_of(st["template"]) for p in h[:i]):
+                ctx.count("reactor_steps_after_another_numbering_of_the_template")
+            ctx.case({"kind": "reactor-history", "steps": h[:i + 1]}, nontrivial=n_raw >= 2,
+                     sample={"stream": stream, "step": i, "template": st["template"], "substrate": st["substrate"], "raw_matches": n_raw,
+                             "distinct_reactions": len(r.get("results_raw") or [])} if (i >= 2 and n_raw >= 2) else None)
+            v = step_verdict(r)
+            if v is None:
+                continue
+            bad += 1
+            what, detail = v
+            prefix = h[:i + 1]
+            if shrink:
+                last = h[i]
+
+                def fails(cand):
+                    rr = eval_histories(pool, [list(cand) + [last]], timeout, "s")[0]["steps"][-1]
+                    vv = step_verdict(rr)
+                    return vv is not None and vv[0] == what
+                prefix = shrink_seq(h[:i], fails, budget=24) + [last]
+                rr = eval_histories(pool, [prefix], timeout, "s")[0]["steps"][-1]
+                vv = step_verdict(rr)
+                if vv is not None:
+                    detail = vv[1]
+                else:
+                    prefix = h[:i + 1]
+            ctx.violation(what, {"kind": "reactor-history", "steps": prefix},
+                          dict(detail, stream=stream, failing_step=len(prefix) - 1,
+                               needs_history=len(prefix) > 1, template=prefix[-1]["template"], substrate=prefix[-1]["substrate"]))
+            break
+        if len(ctx.violations) >= 5:
+            break
+    return bad
+
+
 # ---------------------------------------------------------------- entry points
 def load_regress():
     d = ROOT / "regress" / "C11"
     return [json.loads(f.read_text()) for f in sorted(d.glob("*.json"))] if d.exists() else []
 
 
+_POOL = []
+
+
+def history_pool():
+    if not _POOL:
+        _POOL.append(HistoryPool())
+    return _POOL[0]
+
+
+def close_pool():
+    while _POOL:
+        _POOL.pop().close()
+
+
 def run_case_dict(ctx, c, stream):
     if c.get("kind") == "dedup":
         run_dedup(ctx, [("regress", c["matches"], c["pattern_orbits"], c["pattern_anchor"], c["host_orbits"], None)], stream)
+    elif c.get("kind") == "session":
+        run_sessions(ctx, [c], stream)
+    elif c.get("kind") == "reactor-history":
+        run_histories(ctx, history_pool(), [c["steps"]], 120.0, stream, shrink=False)
     else:
         G = graphio.to_nx(c["graph"])
         run_graphs(ctx, [("regress", G, c["node_keys"], c["edge_keys"], c.get("max_iter", 10))], stream)
@@ -609,14 +1342,21 @@ def run(ctx):
         "Driver/Automorphism.lean + Driver/GraphJson.lean JSON codec, harness/graphio.py encoder, this adapter (sets sorted before comparison)",
         "the order of Automorphism.orbits / AutoEst.orbits lists and the tie-break between equally large anchor components are not fixed by "
         "the property: orbit lists are compared as partitions, anchors as 'one of the largest components' (agreement with the model's choice is counted)",
-        "the reactor clause (pruning never changes the set of distinct reactions) belongs to SynReactor and is checked with C03-C05 (DESIGN §6 F11); "
-        "here de-duplication is checked on its own",
+        "the reactor clause (pruning never changes the set of distinct reactions) is checked on the real SynReactor: per query, pruned result set == "
+        "set from gluing every raw match through the reactor's own internals (_mappings := raw matches recorded at SubgraphSearchEngine); trusted: "
+        "Standardize.fit / RDKit canonical SMILES as the notion of 'distinct reaction', harness/reactor_inv_common.py (rewriting, time-out), "
+        "one fresh forked process per history; its Lean side (pruning by rule automorphisms loses no result) is C05's",
     ]
     ctx.assumptions = [
         "graphs are simple undirected NetworkX graphs with non-negative integer node ids",
         "'never separates an orbit' is gated on graphs whose nodes/edges all carry the selected attributes (the exact matcher reads a missing "
         "charge as 0 / element as '*' / order as 1.0, the estimate reads it as None); graphs with missing attributes are compared impl = model only",
-        "attribute values of one key have one type (numbers in half-units, strings, tuples), so Python == is structural equality",
+        "attribute values of one key have one type (numbers in half-units, strings, booleans, tuples), so Python == is structural equality; "
+        "no boolean edge labels (the exact matcher reads a missing edge label as 1.0 and Python has 1.0 == True)",
+        "reactor stream: substrates are SMILES strings or SynGraph objects built from them as SynReactor._wrap_input does; templates are mapped "
+        "reactions turned into ITS graphs by rsmi_to_its (centre or full), reaction strings, or SynRule objects built as _wrap_template does; mode "
+        "from the template reaction as in C05 (explicit centre hydrogens -> defaults, none -> implicit_temp=True, explicit_h=False; mixed skipped); "
+        "an exception of the implementation outside the pruning step is an outcome (counted), not a violation of this clause",
     ]
     ctx.gen_rule = ("regression corpus first; every labelled graph on <=4 (quick) / <=5 (thorough) nodes over 2 elements x 2 bond orders, once per "
                     "isomorphism class, under a random renumbering and insertion order; random molecule-like connected graphs and disconnected unions "
@@ -624,15 +1364,40 @@ def run(ctx):
                     "paths, K_n, prisms, wheels, Petersen, repeated identical components) plain and with one label/order/charge changed; a malformed "
                     "stream with selected attributes missing; max_iter drawn from {0,1,2,3,10}; node_keys/edge_keys default and explicit. "
                     "De-duplication: match lists from SubgraphSearchEngine.find_subgraph_mappings (all/comp/bt) of small symmetric patterns in random "
-                    "hosts, with exact or estimated pattern orbits/anchor, host orbits, both, none, partial matches, duplicates, foreign host orbits.")
+                    "hosts, with exact or estimated pattern orbits/anchor, host orbits, both, none, partial matches, duplicates, foreign host orbits; "
+                    "a tenth of the calls repeated later.  Stream keys: symmetric families / uniform molecule-like graphs / disconnected unions with 1-3 "
+                    "extra node keys (hcount, aromatic, isotope, neighbors tuple, tag) and 0-2 extra edge keys (standard_order, ez, tag, pair tuple), "
+                    "uniform / ONE node or edge differing in ONE key / scattered, queried under defaults+extras, permuted, extras alone, random subset, "
+                    "+missing_key; a part with labels missing; ITS-like graphs with tuple orders and typesGH.  Stream session: 6-20 operations per base "
+                    "graph (query / copy / relabel / sub-graph copy or view / set node label / set edge label / remove node / add edge), edited and "
+                    "derived objects queried right away.  Stream reactor: corpus/c05_extra.txt pairs + seeded corpus sample (<=40 atoms quick) x "
+                    "{centre, full ITS} x {forward, backward} x {own, foreign substrate}; one history per pair (three in thorough), 30% of them "
+                    "interleaved with a second pair; per-history time-out (steps not reached are counted as skipped).")
     ctx.nontrivial_rule = ("graph case: >=2 nodes and (a non-trivial automorphism or >=2 components), distinct as encoded graph + keys + max_iter; "
-                           "dedup case: >=2 matches and at least one orbit argument, distinct as JSON value")
+                           "dedup case: >=2 matches and at least one orbit argument, distinct as JSON value; session query: as graph case on the "
+                           "snapshot; reactor step: >=2 raw matches, distinct as history prefix")
     build_and_audit(ctx, ["SynKitProofs.Props.C11"], "SynKitProofs/Audit/C11.lean", THEOREMS)
+    try:
+        _run_streams(ctx)
+    finally:
+        close_pool()
+
+
+def _run_streams(ctx):
+    import time
+
     rnd = ctx.rnd
+    stamps = ctx.extra.setdefault("stage_wall_s", {})
+    t_last = [time.time()]
+
+    def stamp(name):
+        stamps[name] = round(time.time() - t_last[0], 1)
+        t_last[0] = time.time()
 
     for c in load_regress():
         run_case_dict(ctx, c.get("case", c), "regress")
         ctx.count("regress_cases")
+    stamp("regress")
 
     def keys():
         r = rnd.random()
@@ -677,12 +1442,62 @@ def run(ctx):
         run_graphs(ctx, cases, "malformed")
     ctx.obligation("correspondence: Automorphism counts/orbits/anchor impl == model; AutoEst orbits impl == model; estimate coarser than exact", not ctx.violations)
 
+    stamp("tiny+random+malformed")
+    # attribute-selection variation and rare-but-legal label shapes
+    nkeys, nmiss, nits, nsess = (600, 150, 200, 250) if ctx.quick else (8000, 2500, 3000, 3000)
+    nv = len(ctx.violations)
+    cases = []
+    for _ in range(nkeys):
+        tag, G, nk, ek = keys_case(rnd)
+        cases.append((tag, scramble(rnd, G), nk, ek, mi()))
+    for _ in range(nmiss):
+        tag, G, nk, ek = keys_case(rnd, missing=True)
+        cases.append((tag, scramble(rnd, G), nk, ek, mi()))
+    for _ in range(nits):
+        tag, G, nk, ek = its_like(rnd)
+        cases.append((tag, scramble(rnd, G), nk, ek, mi()))
+    if not ctx.violations:
+        run_graphs(ctx, cases, "keys")
+    ctx.obligation("correspondence under non-default attribute selections (more keys than the defaults, permuted key lists, a key on nodes and "
+                   "edges, tuple-valued labels): Automorphism / AutoEst impl == model, estimate coarser than exact", len(ctx.violations) == nv)
+
+    stamp("keys")
+    # hidden state: sequences of queries on shared objects
+    nv = len(ctx.violations)
+    sessions = [gen_session(rnd) for _ in range(nsess)]
+    if not ctx.violations:
+        run_sessions(ctx, sessions, "session")
+    ctx.obligation("sessions (same object queried again / under other selections / after in-place edits; copies, relabelled copies, sub-graph "
+                   "views): every answer equals the model's answer for the graph as it is at that moment", len(ctx.violations) == nv)
+
+    stamp("session")
     nv = len(ctx.violations)
     dcases = [dedup_case(rnd) for _ in range(ndedup)]
+    # the same call again later (after other calls), and the same match list under another orbit argument
+    for c in rnd.sample(dcases, min(len(dcases), max(20, ndedup // 10))):
+        dcases.append(c)
     if not ctx.violations:
         run_dedup(ctx, dcases, "dedup")
     ctx.obligation("correspondence: deduplicate_matches_with_anchor impl == model, result a sub-list in input order", len(ctx.violations) == nv)
 
+    stamp("dedup")
+    # the reactor clause: pruning on versus every raw match, inside histories of rule applications
+    nv = len(ctx.violations)
+    if not ctx.violations:
+        n_rxn, per_base, timeout = (10, 1, 10.0) if ctx.quick else (60, 3, 60.0)
+        bases = reactor_bases(ctx, n_rxn, 40 if ctx.quick else 60)
+        histories = []
+        for _ in range(per_base):
+            for b in bases:
+                histories.append(make_history(rnd, [b] if rnd.random() < 0.7 else [b, rnd.choice(bases)]))
+        run_histories(ctx, history_pool(), histories, timeout, "reactor")
+        stamp("reactor")
+    ctx.obligation("rule application (SynReactor, automorphism on and off, strategies all/comp/bt): within every history of applications the "
+                   "pruned result set equals the set obtained from every raw match of the same query", len(ctx.violations) == nv)
+
 
 def replay(ctx, case):
-    run_case_dict(ctx, case["case"], "replay")
+    try:
+        run_case_dict(ctx, case["case"], "replay")
+    finally:
+        close_pool()
